@@ -255,11 +255,17 @@ class StmtMixin:
         org = getattr(o, "origin", None)
         if org is None:
             return
-        lref, idx = org
+        lref, idx = org[0], org[1]
         if lref not in st.heap:
             return
         lo = st.mut(lref)
-        if isinstance(lo, HListArr):
+        if isinstance(lo, HListStruct):
+            j = org[2]
+            lo.arrs = list(lo.arrs)
+            lo.lens = list(lo.lens)
+            lo.arrs[j] = z3.Store(lo.arrs[j], idx, o.a)
+            lo.lens[j] = z3.Store(lo.lens[j], idx, o.n)
+        elif isinstance(lo, HListArr):
             lo.a = z3.Store(lo.a, idx, o.a)
         elif isinstance(lo, HArr2):
             lo.a = z3.Store(lo.a, idx, o.a)
@@ -454,10 +460,34 @@ class StmtMixin:
             return loops["@segment"]
         return loops.get(self.loop_key(s), {})
 
-    def mutated_roots(self, stmts, st):
+    def mutated_roots(self, stmts, st, loop=None):
         """Names whose object may be mutated by the statements -> set of names, or (name, attr)
-        when only one field of a named tuple is written (coo.row[...] = ...)."""
+        when only one field of a named tuple is written (coo.row[...] = ...).  An element taken out of a container
+        (`for x in L`, `x = L[i]`) aliases it: mutating x mutates L."""
         out = set()
+        aliases = {}
+        deep_names = set()
+        inplace_names = set()   # `x += ...` on a bare name: a rebinding for scalars - not propagated to the container x came from
+
+        def note_alias(tgt, src):
+            if isinstance(src, ast.Call) and isinstance(src.func, ast.Name) and src.func.id in ("enumerate", "reversed", "zip", "list", "sorted"):
+                for a in src.args:
+                    note_alias(tgt, a)
+                return
+            while isinstance(src, ast.Subscript):
+                src = src.value
+            if isinstance(src, ast.Name):
+                for nm in assigned_names([ast.Assign(targets=[tgt], value=ast.Constant(value=0))]):
+                    if nm != src.id:
+                        aliases.setdefault(nm, set()).add(src.id)
+
+        for s in list(stmts) + ([loop] if loop is not None else []):
+            for n in ([s] if s is loop else ast.walk(s)):
+                if isinstance(n, ast.For):
+                    note_alias(n.target, n.iter)
+                elif isinstance(n, ast.Assign) and len(n.targets) == 1 and isinstance(n.targets[0], ast.Name) and isinstance(n.value, ast.Subscript) \
+                        and not isinstance(n.value.slice, ast.Slice):
+                    note_alias(n.targets[0], n.value)
 
         def add(e):
             # e: Subscript/Attribute target expression
@@ -470,6 +500,7 @@ class StmtMixin:
             r = root_name(e)
             if r:
                 out.add(r)
+                deep_names.add(r)
 
         for s in stmts:
             for n in ast.walk(s):
@@ -481,12 +512,22 @@ class StmtMixin:
                                 add(e)
                             elif isinstance(e, ast.Name) and isinstance(n, ast.AugAssign):
                                 out.add(e.id)  # numpy in-place
+                                inplace_names.add(e.id)
                 elif isinstance(n, ast.Call):
                     if isinstance(n.func, ast.Attribute) and n.func.attr in MUTATORS:
                         add(n.func.value)
                     else:
                         for argname in self.call_mutates(n, st):
                             out.add(argname)
+                            deep_names.add(argname)
+        changed = True
+        while changed:
+            changed = False
+            for nm, roots in aliases.items():
+                if (nm in out and (nm in deep_names or nm not in inplace_names)) or any(isinstance(x, tuple) and x[0] == nm for x in out):
+                    if not roots <= out:
+                        out |= roots
+                        changed = True
         return out
 
     def havoc_obj(self, st, ref, grow):
@@ -496,6 +537,7 @@ class StmtMixin:
             if o.is_list and grow:
                 o.n = fresh("hvn", INT)
                 st.assume(o.n >= 0)
+            self.write_back(st, ref)   # an element taken out of a list: the list sees the change
         elif isinstance(o, HArr2):
             o.a = fresh("hv2", o.a.sort())
         elif isinstance(o, HListArr):
@@ -582,10 +624,10 @@ class StmtMixin:
             out += self.ghost_stmts(lc)
         return out
 
-    def do_havoc(self, st, body, extra_names=(), lc=None):
+    def do_havoc(self, st, body, extra_names=(), lc=None, loop=None):
         body = list(body) + self.ghost_in(body, lc)
         names = assigned_names(body)
-        muts = self.mutated_roots(body, st)
+        muts = self.mutated_roots(body, st, loop)
         for nm in muts:
             attr = None
             if isinstance(nm, tuple):
@@ -769,7 +811,7 @@ class StmtMixin:
         # --- arbitrary iteration
         head = st
         head.ghost.update(init.ghost)
-        self.do_havoc(head, s.body, lc.get("ghost_vars", ()), lc)
+        self.do_havoc(head, s.body, lc.get("ghost_vars", ()), lc, loop=s)
         k = fresh("it", INT)
         head.ghost[kname] = Sc("int", k)
         head.assume(z3.And(k >= 0, k <= n))
@@ -817,6 +859,7 @@ class StmtMixin:
             res.append(("normal", se, None))
         return res
 
-    def canary(self, st, node, what):
-        """Vacuity guard: the point must be reachable (pc satisfiable)."""
-        self.canaries.append((what, getattr(node, "lineno", 0), solve.feasible(st.full_pc(), 1000, full=True)))
+    def canary(self, st, node, what, full=True):
+        """Vacuity guard: the point must be reachable (pc satisfiable).  full=False: judged on the quantifier-free part only
+        (cheap; used after every call by contract, where the typical mistake is a ground contradiction in the assumed contract)."""
+        self.canaries.append((what, getattr(node, "lineno", 0), solve.feasible(st.full_pc(), 200, full=full)))
